@@ -341,7 +341,10 @@ func (s *Service) ProtocolVersion() string {
 //
 //	nc := service.Conn().(*nats.Conn)
 func (s *Service) Conn() Conn {
-	return s.nc
+	s.mu.Lock()
+	nc := s.nc
+	s.mu.Unlock()
+	return nc
 }
 
 // infof logs a formatted info entry.
@@ -663,6 +666,7 @@ func (s *Service) serve(nc Conn) error {
 	// Initialize fields
 	inCh := make(chan *nats.Msg, s.inChannelSize)
 	workCh := make(chan *work, 1)
+	s.mu.Lock()
 	s.nc = nc
 	s.inCh = inCh
 	s.workcond = sync.Cond{L: &s.mu}
@@ -670,6 +674,7 @@ func (s *Service) serve(nc Conn) error {
 	s.workqueue = s.workbuf[:0]
 	s.rwork = make(map[string]*work, s.inChannelSize)
 	s.queryTQ = timerqueue.New(s.queryEventExpire, s.queryDuration)
+	s.mu.Unlock()
 
 	// Start workers
 	s.wg.Add(s.workerCount)
@@ -724,8 +729,10 @@ func (s *Service) Shutdown() error {
 	s.wg.Wait()
 	vhook("sd.waited")
 
+	s.mu.Lock()
 	s.inCh = nil
 	s.nc = nil
+	s.mu.Unlock()
 	vhook("sd.cleared")
 
 	atomic.StoreInt32(&s.state, stateStopped)
@@ -899,6 +906,13 @@ func (s *Service) setDefaultOwnership() {
 // the patterns used for ResetAll.
 func (s *Service) subscribe() error {
 	var err error
+	// The service may already have been shut down again
+	s.mu.Lock()
+	nc, inCh := s.nc, s.inCh
+	s.mu.Unlock()
+	if nc == nil {
+		return errNotStarted
+	}
 	s.setDefaultOwnership()
 	if len(s.resetResources) == 0 && len(s.resetAccess) == 0 {
 		return errors.New("res: no resources to serve")
@@ -929,9 +943,9 @@ next:
 		}
 		s.tracef("sub %s", pattern)
 		if s.queueGroup == "" {
-			_, err = s.nc.ChanSubscribe(pattern, s.inCh)
+			_, err = nc.ChanSubscribe(pattern, inCh)
 		} else {
-			_, err = s.nc.ChanQueueSubscribe(pattern, s.queueGroup, s.inCh)
+			_, err = nc.ChanQueueSubscribe(pattern, s.queueGroup, inCh)
 		}
 		if err != nil {
 			return err
@@ -1109,8 +1123,13 @@ func (s *Service) event(subj string, data interface{}) {
 	payload, err := json.Marshal(data)
 	if err == nil {
 		vhook("ev.pub", subj)
+		nc := s.Conn()
+		if nc == nil {
+			s.errorf("Error sending event %s: service not started", subj)
+			return
+		}
 		s.tracef("<-- %s: %s", subj, payload)
-		err = s.nc.Publish(subj, payload)
+		err = nc.Publish(subj, payload)
 	}
 	if err != nil {
 		s.errorf("Error sending event %s: %s", subj, err)
@@ -1121,8 +1140,13 @@ func (s *Service) event(subj string, data interface{}) {
 // event.
 func (s *Service) rawEvent(subj string, payload []byte) {
 	vhook("ev.pub", subj)
+	nc := s.Conn()
+	if nc == nil {
+		s.errorf("Error sending event %s: service not started", subj)
+		return
+	}
 	s.tracef("<-- %s: %s", subj, payload)
-	err := s.nc.Publish(subj, payload)
+	err := nc.Publish(subj, payload)
 	if err != nil {
 		s.errorf("Error sending event %s: %s", subj, err)
 	}
